@@ -85,6 +85,7 @@ func Reset() {
 	Failed, Events, Reached, Diverged = nil, nil, nil, nil
 	Facts = map[string]string{}
 	clockStarted, clockNS, SleepCount, MaxSleeps = false, 0, 0, 0
+	SinceNS = nil
 	ConcreteClockStep = 0
 	ClockAbs, ClockFrozen, clockFrozen = false, false, false
 	clockFrozen = false
@@ -385,7 +386,15 @@ func ClockNS() int64 {
 	return clockNS
 }
 
-func Since(t time.Time) time.Duration { return Now().Sub(t) }
+// SinceNS lists the instants read by Since, in call order, so that an oracle can
+// refer to exactly the instant the code under test compared against.
+var SinceNS []int64
+
+func Since(t time.Time) time.Duration {
+	n := Now()
+	SinceNS = append(SinceNS, clockNS)
+	return n.Sub(t)
+}
 
 // MaxSleeps bounds polling loops: from the MaxSleeps-th Sleep on, every Sleep
 // additionally advances the clock by ~13 days, so that any deadline-bounded wait
